@@ -119,6 +119,86 @@ def _encoder_classes(prog: Program) -> Set[str]:
     return out
 
 
+
+def sized_json_problems(prog: Program, f: FuncInfo) -> Tuple[int, List[Tuple[int, str, str]]]:
+    """SIZED-JSON.  What the JSON loader returns may be any JSON value: `len(v)`, iterating v or subscripting it raises TypeError
+    for null / true / false / a number, and nothing in dispatch() converts a TypeError into a reply.  Such a use is admissible only
+    where the type tests on the same value (resolved per JSON type) keep the scalars away.  (#uses examined, problems)"""
+    cfg = CFG(f, prog)
+    loaded: Set[str] = set()
+    for n in cfg.stmt_nodes():
+        a = n.ast
+        if isinstance(a, (ast.Assign, ast.AnnAssign)) and getattr(a, 'value', None) is not None:
+            v = a.value
+            while isinstance(v, ast.Await):
+                v = v.value
+            if isinstance(v, ast.Call) and (dotted(v.func) or '').endswith(('_json_loader', 'json.loads', 'json_loader')):
+                for t in (a.targets if isinstance(a, ast.Assign) else [a.target]):
+                    if isinstance(t, ast.Name):
+                        loaded.add(t.id)
+    n_uses = 0
+    problems: List[Tuple[int, str, str]] = []
+    tags = {'NoneType': 'null', 'bool': 'true / false', 'int': 'a number', 'float': 'a number'}
+    for var in sorted(loaded):
+        uses = []
+        for n in cfg.nodes:
+            if n.ast is None:
+                continue
+            top = n.ast.iter if n.kind in ('iter', 'next') and hasattr(n.ast, 'iter') else n.ast
+            if n.kind in ('iter',) and isinstance(top, ast.Name) and top.id == var:
+                uses.append((n, top, f'iterating `{var}`'))
+            if isinstance(top, (ast.FunctionDef, ast.AsyncFunctionDef, ast.ClassDef)):
+                continue
+            frags = [top] if n.kind not in ('iter', 'next') else []
+            for fr in frags:
+                for x in ast.walk(fr.test if n.kind == 'cond' and hasattr(fr, 'test') else fr):
+                    if isinstance(x, ast.Call) and dotted(x.func) == 'len' and len(x.args) == 1 and dotted(x.args[0]) == var:
+                        uses.append((n, x, f'`{norm(x)}`'))
+                    elif isinstance(x, ast.Subscript) and dotted(x.value) == var and isinstance(x.ctx, ast.Load):
+                        uses.append((n, x, f'`{norm(x)}`'))
+        for n, x, what in uses:
+            n_uses += 1
+            caught = False
+            for t_ in [y for y in walk_own(f.node) if isinstance(y, ast.Try)]:
+                if any(z is x for b_ in t_.body for z in ast.walk(b_)):
+                    for h_ in t_.handlers:
+                        hn = [dotted(q) for q in (h_.type.elts if isinstance(h_.type, ast.Tuple) else [h_.type])] if h_.type is not None else ['BaseException']
+                        if any((q or '').rsplit('.', 1)[-1] in ('TypeError', 'Exception', 'BaseException') for q in hn):
+                            caught = True
+            if caught:
+                continue
+            bad_tags = []
+            for tag, word in tags.items():
+                avoid = []
+                for c in cfg.nodes:
+                    if c.kind != 'cond':
+                        continue
+                    t_, neg = c.ast, False
+                    while isinstance(t_, ast.UnaryOp) and isinstance(t_.op, ast.Not):
+                        t_, neg = t_.operand, not neg
+                    truth = None
+                    if isinstance(t_, ast.Call) and dotted(t_.func) == 'isinstance' and len(t_.args) == 2 and dotted(t_.args[0]) == var:
+                        tp = t_.args[1]
+                        names = {dotted(y) for y in (tp.elts if isinstance(tp, ast.Tuple) else [tp])}
+                        if names <= {'list', 'tuple', 'dict', 'str', 'int', 'float', 'bool', 'bytes'}:
+                            truth = tag in names or (tag == 'bool' and 'int' in names)
+                    elif isinstance(t_, ast.Compare) and len(t_.ops) == 1 and isinstance(t_.ops[0], (ast.Is, ast.IsNot)) and dotted(t_.left) == var and \
+                            isinstance(t_.comparators[0], ast.Constant) and t_.comparators[0].value is None:
+                        truth = (tag == 'NoneType') == isinstance(t_.ops[0], ast.Is)
+                    if truth is None:
+                        continue
+                    taken = truth != neg
+                    avoid += [ed for ed in cfg.succ[c.id] if ed.label in ('T', 'F') and (ed.label == 'T') != taken]
+                # a use inside the very condition that tests the type (`isinstance(v, list) and len(v) > n`) is decomposed by the CFG
+                if n.id in cfg.reachable(cfg.entry, avoid_edges=avoid):
+                    bad_tags.append(word)
+            if bad_tags:
+                problems.append((getattr(x, 'lineno', n.line), f'{what} on a JSON value of any type',
+                                 f'{what} is evaluated for a request text that is {" / ".join(sorted(set(bad_tags)))} (`{var}` is what the JSON loader '
+                                 f'returned; no type test keeps scalars away): TypeError, which no handler of dispatch() turns into a reply'))
+    return n_uses, problems
+
+
 def error_ctor_arguments(prog: Program):
     """(number of constructions, [(function, line, construct, message)]) over pjrpc.server.* and pjrpc.common.*: a construction of a
     JsonRpcError subclass whose first / second positional argument (or code= / message= keyword) is not an integer / string by
@@ -331,6 +411,12 @@ def run(ck: Check, prog: Program) -> None:
     ck.extra['lemmas'] = interp.lemmas
     if interp.depth_cutoffs:
         raise AnalysisError(f'call depth bound hit at {sorted(interp.depth_cutoffs)}')
+    for r_ in roles:
+        n_sz, sz = sized_json_problems(prog, r_.dispatch)
+        ck.ob('SIZED-JSON', f'{short(r_.dispatch.qualname)}: {n_sz} len() / iteration / subscript uses of the loaded JSON value are kept to containers', not sz,
+              nontrivial=n_sz > 0)
+        for line, construct, msg in sz:
+            ck.finding('SIZED-JSON', r_.dispatch.qualname, construct, r_.dispatch.module.rel, line, msg)
     # the response text is produced with the server encoder: what the dispatcher itself puts into an error (the validation error of
     # a call that does not bind) must be encodable by it, or json.dumps raises out of dispatch
     from .totality import encoder_default
@@ -570,6 +656,12 @@ def _codes_shape(ck: Check, prog: Program, fn: FuncInfo) -> None:
                                     f'`{sq.text()[:100]}`')
                 for a in sq.elt:
                     check_leaf(a.expr, a.guards + sq.filters, tgt)
+                # a batch response can itself be one error object (no elements): then the document is that error and its code is
+                # the one code — the per-element tuple is what is returned only when the batch carries no error of its own
+                if dotted(sq.iter) == param and not any(err_test(c, p, param) is False for c, p in sq.guards):
+                    problems.append(f'the per-element codes `{sq.text()[:70]}` are returned without establishing that `{param}` carries no '
+                                    f'error of its own: a batch-level error (BatchResponse(error=…), serialised as one error object) is reported '
+                                    f'with the empty tuple')
             else:
                 problems.append(f'return value `{norm(sq.expr)[:60] if sq.expr is not None else "?"}` is not a tuple of codes')
     ok = not problems and n_codes >= 2
